@@ -103,6 +103,7 @@ type tableMon struct {
 	anyNotAtomicAction bool
 	lastTurnKey        string
 	turnAt             int64
+	extensions         map[string]extRec
 	turnStale          int64
 	lastDeadlineSeen   int64
 	turnOK             bool
@@ -1078,17 +1079,17 @@ func (m *tableMon) checkDeadline(h *handRec, t *pt.Table) {
 		m.turnOpen = true
 		m.turnDesc = fmt.Sprintf("hand %d round %s player %d (allowed %v, asked at %d)", h.k, gs.Status.Round, cp, p.AllowedActions, t.UpdateAt)
 	}
-	if m.extendInFlight || m.extendedKey == m.turnKey(gs) {
-		m.turnOK = true
-		return
-	}
 	// A snapshot published by a concurrent, unrelated event may show the request before the
 	// deadline has been written (0); what must never appear is a wrong deadline, and the right
 	// one must have been published before the turn is over.
 	want := m.turnAt + int64(t.Meta.ActionTime)
 	c.Judged("C15.deadline_on_request")
+	ext := m.extensions[m.turnKey(gs)]
 	switch {
 	case st.CurrentActionEndAt == want:
+		m.turnOK = true
+	case ext.total > 0 && st.CurrentActionEndAt > want && st.CurrentActionEndAt <= want+ext.total:
+		// extended (every prefix sum of the extensions requested during this turn is acceptable)
 		m.turnOK = true
 	case st.CurrentActionEndAt == m.turnStale:
 		// the deadline of the previous turn, re-published by a concurrent event before the engine wrote the new one
@@ -1098,6 +1099,17 @@ func (m *tableMon) checkDeadline(h *handRec, t *pt.Table) {
 	default:
 		c.Probe("request_published_before_deadline_written")
 	}
+}
+
+type extRec struct{ total int64 }
+
+func (m *tableMon) extensionInvoke(turnKey string, d int64) {
+	if m.extensions == nil {
+		m.extensions = map[string]extRec{}
+	}
+	e := m.extensions[turnKey]
+	e.total += d
+	m.extensions[turnKey] = e
 }
 
 func (m *tableMon) closeTurn(h *handRec) {
